@@ -465,7 +465,8 @@ def check(model, rep, tier):
             {'value': core.norm(v) if v is not None else None})
   ca = model.func(CONVN, 'cache_allowlisted')
   ia = model.func(CONVN, 'is_in_allowlist_cache')
-  ok = any(isinstance(n, ast.Assign) and core.norm(n.targets[0]) ==
+  ok = any(isinstance(n, ast.Assign) and isinstance(n.targets[0], ast.Subscript) and
+           tpl.xnorm(ca, n.targets[0], n) ==
            '_ALLOWLIST_CACHE[%s][%s]' % tuple(ca.params()) for n in ast.walk(ca.node))
   rep.check(ok, 'CACHE-ALLOWLIST', '%s:store' % ca.site,
             'failures are remembered per (entity, options)', line=ca.node.lineno)
